@@ -225,29 +225,28 @@ func validateV1alpha1RolloutSpecCanarySteps(c *validateContext, steps []appsv1al
 		}
 	}
 
-	for i := 1; i < stepCount; i++ {
-		prev := &steps[i-1]
+	// steps are comparable if they are of the same type (both integers or both percentages):
+	// compare each step with the latest previous step of its type, so that a step of the
+	// other type in between cannot hide a decrease
+	lastOfType := map[bool]int{}
+	for i := range steps {
 		curr := &steps[i]
-		if isTraffic && curr.Weight != nil && prev.Weight != nil && *curr.Weight < *prev.Weight {
-			return field.ErrorList{field.Invalid(fldPath.Child("Weight"), steps, `Steps.Weight must be a non decreasing sequence`)}
+		if i > 0 {
+			prev := &steps[i-1]
+			if isTraffic && curr.Weight != nil && prev.Weight != nil && *curr.Weight < *prev.Weight {
+				return field.ErrorList{field.Invalid(fldPath.Child("Weight"), steps, `Steps.Weight must be a non decreasing sequence`)}
+			}
 		}
 
-		// if they are comparable, then compare them
-		if IsPercentageCanaryReplicasType(prev.Replicas) != IsPercentageCanaryReplicasType(curr.Replicas) {
-			continue
-		}
-
-		prevCanaryReplicas, _ := intstr.GetScaledValueFromIntOrPercent(prev.Replicas, 100, true)
+		isPercentage := IsPercentageCanaryReplicasType(curr.Replicas)
 		currCanaryReplicas, _ := intstr.GetScaledValueFromIntOrPercent(curr.Replicas, 100, true)
-		if prev.Replicas == nil {
-			prevCanaryReplicas = int(*prev.Weight)
-		}
 		if curr.Replicas == nil {
 			currCanaryReplicas = int(*curr.Weight)
 		}
-		if currCanaryReplicas < prevCanaryReplicas {
+		if prevCanaryReplicas, ok := lastOfType[isPercentage]; ok && currCanaryReplicas < prevCanaryReplicas {
 			return field.ErrorList{field.Invalid(fldPath.Child("CanaryReplicas"), steps, `Steps.CanaryReplicas must be a non decreasing sequence`)}
 		}
+		lastOfType[isPercentage] = currCanaryReplicas
 	}
 
 	return nil
